@@ -72,6 +72,18 @@ def run(ctx):
         K = gen.rand_kripke(rnd, n, density=rnd.choice([0.2, 0.35, 0.5]))
         fam_iii.append({'logic': 'CTL', 'K': K, 'f': gen.rand_ctl(rnd, rnd.choice([2, 3, 4])),
                         'naming': rnd.choice(['int', 'str', 'tuple']), 'shuf': rnd.randrange(1 << 30)})
+    # n-ary and/or (arity 3-4) over CTL operands
+    pool = L0 + gen.ctl_q(M0)
+    fam_n = []
+    for _ in range(1500 if q else 30000):
+        f = (rnd.choice(['and', 'or']),) + tuple(rnd.choice(pool) for _ in range(rnd.choice([3, 3, 4])))
+        r = rnd.random()
+        if r < 0.3:
+            f = ('not', f)
+        elif r < 0.6:
+            f = rnd.choice(gen.ctl_q([f], [rnd.choice(pool)]))
+        fam_n.append({'logic': 'CTL', 'K': rnd.choice(cat), 'f': f})
+    fam_iii = fam_iii + fam_n
     # (iv) the same formulas as text (CTL.Parser inside modelcheck) and as CTL* objects (cast inside)
     fam_iv = []
     for c in rnd.sample(fam_ii, min(len(fam_ii), 3000 if q else 40000)) + rnd.sample(fam_iii, 1000 if q else 20000):
